@@ -388,8 +388,28 @@ def run(ctx):
     C03.r7(ctx, ops=("hold", "release"), R="C08-R9")
     ctx.floor("C08-R9", 4)
     r14(ctx)
+    r15(ctx)
+    from . import C09
+    C09.r6(ctx)   # a released burst lands in the socket together: the datagram parked by readable() is not overwritten by the next one
     C03.r2(ctx, C03.Typestate(ctx.w, C03.CELLS))   # nothing is put in flight past the state test of Link::enqueue (an answer generated on a held link is parked too)
     C02.r4(ctx)   # R7: a released batch of `capacity` data segments + FIN fits the receive queue
+
+
+def r15(ctx):
+    R = "C08-R15"
+    ctx.rule(R, "the links iterator lists what is in the queue: LinkIter::next advances the queue's own iterator by plain `next` (no find / "
+                "filter / skip_while / position / nth on the way) - a message stays in flight until its host takes it, also after a release or "
+                "a manual deliver re-stamped it with the current time")
+    b = ctx.body(R, "<turmoil::top::LinkIter as std::iter::Iterator>::next")
+    if not b:
+        return
+    sel = sorted({t["f"].rsplit("::", 1)[1] for fb in ctx.w.family(b.id) for bb, t in fb.calls(re.compile(r"Iterator(>)?::(find|find_map|filter|filter_map|skip_while|take_while|position|nth|skip|step_by)$"))})
+    nx = [t for bb, t in b.calls(re.compile(r"Iterator>::next$|^std::iter::Iterator::next$"))]
+    ok = bool(nx) and not sel
+    ctx.inst(R, "LinkIter::next:lists-every-entry", ok, b.span, "every queued message of the link is listed" if ok else
+             f"LinkIter::next selects among the queued messages ({', '.join(sel) or 'no plain next()'}): a message that is still in flight (released or hand-delivered, not yet "
+             "taken by its host) is missing from the links iterator - the bookkeeping around hold / release / SentRef::deliver no longer adds up")
+    ctx.floor(R, 1)
 
 
 def r14(ctx, R="C08-R14"):
